@@ -699,8 +699,16 @@ func (in *Interp) callBuiltin(caller *frame, fn *ssa.Builtin, args []Value, site
 			if x != nil {
 				x.E = nil
 			}
+		case SliceV:
+			n := int(in.concretize(x.N, "clear length"))
+			if n > 0 {
+				et := fn.Type().(*types.Signature).Params().At(0).Type().Underlying().(*types.Slice).Elem()
+				for i := 0; i < n; i++ {
+					in.upd(x.Arr, in.tc.Bin(OpAdd, x.Off, in.k64(int64(i))), tTrue, in.zero(et))
+				}
+			}
 		default:
-			panic(unsupported("clear of slice"))
+			panic(unsupported("clear of unknown kind"))
 		}
 		return nil
 	case "print", "println":
